@@ -452,7 +452,7 @@ class Effects:
                                 effect(a, "callee", st, f"{tgt.short} mutates its parameter `{p}`")
                 elif isinstance(tgt, Func):
                     kwp = tgt.node.args.kwarg.arg if tgt.node.args.kwarg is not None else None
-                    summ = self._summary_for_call(tgt, st)
+                    summ = self._summary_for_call(tgt, st, fixed)
                     for p, a in self._bind(tgt, st):
                         if p == kwp:
                             continue  # values reached through **kwargs: key-dependent, handled by the shared-metadata rule
@@ -466,7 +466,7 @@ class Effects:
                             effect(fn.value, "mutator-method", st, norm(st)[:80])
                     else:
                         total = self._by_method.get(fn.attr, [])
-                        cands = [c for c in total if c.params and c.params[0] in self._summary_for_call(c, st)]
+                        cands = [c for c in total if c.params and c.params[0] in self._summary_for_call(c, st, fixed)]
                         if cands and len(cands) == len(total) and fn.attr not in COPY_METHODS | VIEW_METHODS:
                             effect(fn.value, "callee", st, f".{fn.attr}() mutates its receiver in every repository class that defines it")
                         # arguments of a method that cannot be resolved (the receiver is an attribute holding some object): if the classes that
@@ -510,9 +510,22 @@ class Effects:
     def events_on(self, f: Func, param):
         return [e for e in self.events.get(f, []) if e.root == param]
 
-    def _summary_for_call(self, callee, call):
-        """Mutated-parameter set of callee, specialised on constant boolean keyword arguments of this call."""
-        fixed = {k.arg: k.value.value for k in call.keywords if k.arg and isinstance(k.value, ast.Constant) and isinstance(k.value.value, bool)}
+    def _summary_for_call(self, callee, call, caller_fixed=None):
+        """Mutated-parameter set of callee, specialised on the boolean arguments of this call that are constants or parameters the
+        caller itself is analysed with a fixed value for (a flag handed on to an extracted helper)."""
+        fixed = {}
+        try:
+            pairs = self._bind(callee, call)
+        except Exception:
+            pairs = [(k.arg, k.value) for k in call.keywords if k.arg]
+        for pn, a in pairs:
+            neg = False
+            while isinstance(a, ast.UnaryOp) and isinstance(a.op, ast.Not):
+                a, neg = a.operand, not neg
+            if isinstance(a, ast.Constant) and isinstance(a.value, bool):
+                fixed[pn] = a.value != neg
+            elif isinstance(a, ast.Name) and caller_fixed and a.id in caller_fixed and isinstance(caller_fixed[a.id], bool):
+                fixed[pn] = caller_fixed[a.id] != neg
         fixed = {k: v for k, v in fixed.items() if k in callee.params}
         if not fixed:
             return self.mut.get(callee, set())
